@@ -295,7 +295,16 @@ async fn post_tck_evaluate(params: Json<TckEvaluateParams>, data: web::Data<Appl
 /// Input values may be defined in `JSON` or `FEEL` context format.
 /// Result is always in JSON format.
 #[post("/evaluate/{model}/{invocable}")]
-async fn post_evaluate(params: web::Path<EvaluateParams>, request_body: web::Bytes, data: web::Data<ApplicationData>) -> HttpResponse {
+async fn post_evaluate(params: web::Path<EvaluateParams>, request_body: std::result::Result<web::Bytes, actix_web::Error>, data: web::Data<ApplicationData>) -> HttpResponse {
+  // a body that could not be read (for example one over the payload limit) is reported in JSON format, like any other error
+  let request_body = match request_body {
+    Ok(bytes) => bytes,
+    Err(reason) => {
+      return HttpResponse::build(reason.as_response_error().status_code())
+        .content_type("application/json")
+        .body(ResultDto::<String>::error(err_internal_error(&format!("{:?}", reason))).to_string())
+    }
+  };
   // the input context is a text, a body that is not valid UTF-8 is reported like any other invalid input
   let request_body = match std::str::from_utf8(&request_body) {
     Ok(text) => text,
